@@ -2,8 +2,13 @@ package props
 
 import (
 	"bytes"
+	"encoding/json"
 	"fmt"
+	"regexp"
 	"strings"
+	"time"
+
+	"gopkg.in/yaml.v3"
 
 	"verif/mc/fixture"
 	"verif/mc/model"
@@ -76,4 +81,48 @@ func specs(list []model.Entry) []fixture.ContentSpec {
 			Owner: e.Owner, Group: e.Group, Mode: e.Mode, MTime: e.MTime, HasInfo: e.HasInfo, Expand: e.Expand})
 	}
 	return out
+}
+
+var zTimeRe = regexp.MustCompile(`(\d{4}-\d\d-\d\dT\d\d:\d\d:\d\d(?:\.\d+)?)Z`)
+
+// respellText writes the same document in another YAML spelling: "json" (flow style, every string quoted, escapes),
+// "crlf" (CRLF line ends), "bom" (byte order mark, document start and end markers), "tz" (timestamps written with a
+// +02:00 offset, same instants), "comments" (a comment and a blank line after every top-level line), or a number
+// notation ("0", "0o", "0x", "0b": modes and umask).
+func respellText(text, spell string) (string, error) {
+	switch spell {
+	case "json":
+		var v any
+		if err := yaml.Unmarshal([]byte(text), &v); err != nil {
+			return "", err
+		}
+		b, err := json.MarshalIndent(v, "", "  ")
+		return string(b) + "\n", err
+	case "crlf":
+		return strings.ReplaceAll(text, "\n", "\r\n"), nil
+	case "bom":
+		return "\ufeff---\n" + text + "...\n", nil
+	case "tz":
+		return zTimeRe.ReplaceAllStringFunc(text, func(m string) string {
+			t, err := time.Parse(time.RFC3339Nano, m)
+			if err != nil {
+				return m
+			}
+			return t.In(time.FixedZone("", 2*3600)).Format(time.RFC3339Nano)
+		}), nil
+	case "comments":
+		// a comment line before every top-level key (column 0: outside any block scalar), one at the end
+		var b strings.Builder
+		for _, l := range strings.SplitAfter(text, "\n") {
+			if len(l) > 0 && (l[0] >= 'a' && l[0] <= 'z') {
+				b.WriteString("# a comment before a top-level key\n")
+			}
+			b.WriteString(l)
+		}
+		b.WriteString("# a comment at the end\n")
+		return b.String(), nil
+	case "0", "0o", "0x", "0b":
+		return respellNumbers(text, spell), nil
+	}
+	return "", fmt.Errorf("unknown spelling %q", spell)
 }
